@@ -75,6 +75,13 @@ Proof.
   - apply Z.eqb_neq in E1. rewrite Z.mod_small by lia. lia.
 Qed.
 
+Theorem abs_unsigned_correct sb x : 0 < snd sb -> is_signed sb = false -> in_int sb x -> lowered_abs sb x = jax_abs sb x.
+Proof.
+  intros Hb Hs Hx. unfold lowered_abs, o_abs, jax_abs.
+  destruct sb as [sg b]; unfold in_int, int_lo, int_hi, is_signed in *; simpl in *. subst sg.
+  rewrite Z.abs_eq by lia. rewrite Z.mod_small by lia. now destruct (x =? 0).
+Qed.
+
 Definition jax_sign (sb : ity) (x : Z) := if x <? 0 then -1 else if x =? 0 then 0 else 1.
 Definition lowered_sign (sb : ity) (x : Z) := o_sign sb x.
 Theorem sign_correct sb x : 0 < snd sb -> in_int sb x -> lowered_sign sb x = jax_sign sb x.
@@ -122,39 +129,49 @@ Qed.
 Theorem rem_correct sb x y : 0 < snd sb -> in_int sb x -> in_int sb y -> y <> 0 -> lowered_rem sb x y = jax_rem sb x y.
 Proof. apply lowered_rem_eq. Qed.
 
-(* jnp.floor_divide: floor; signed: Where(sign x <> sign y && rem <> 0, q - 1, q); unsigned: Div *)
+(* jnp.floor_divide (the jax.numpy plugin's own integer lowering):
+     q = Div(x, y); r = Sub(x, Mul(q, y)); Where(And(Not(Equal(r, 0)), Xor(Less(r, 0), Less(y, 0))), Sub(q, 1), q)
+   i.e. one step down from the truncated quotient exactly when the remainder is non-zero and its sign differs from the
+   divisor's (the test compares SIGNS; a product r * y would wrap) *)
 Definition jax_floor_divide (sb : ity) (x y : Z) := x / y.
 Definition lowered_floor_divide (sb : ity) (x y : Z) :=
-  if is_signed sb then
-    o_where (o_and (o_not (o_equal (o_sign sb x) (o_sign sb y)))
-                   (o_not (o_equal (o_sub sb x (o_mul sb (o_div sb x y) y)) 0)))
-            (o_sub sb (o_div sb x y) 1) (o_div sb x y)
-  else o_div sb x y.
+  let q := o_div sb x y in
+  let r := o_sub sb x (o_mul sb q y) in
+  o_where (o_and (o_not (o_equal r 0)) (o_xor (o_less r 0) (o_less y 0))) (o_sub sb q 1) q.
+Lemma div_from_quot_rem x y : y <> 0 ->
+  x / y = if negb (Z.rem x y =? 0) && xorb (Z.rem x y <? 0) (y <? 0) then Z.quot x y - 1 else Z.quot x y.
+Proof.
+  intro Hy. pose proof (Z.quot_rem' x y) as Hq. pose proof (Z.rem_bound_abs x y Hy) as Hb.
+  destruct (Z.rem x y =? 0) eqn:E0; simpl.
+  - apply Z.eqb_eq in E0. symmetry. apply Z.div_unique with (r := 0); lia.
+  - apply Z.eqb_neq in E0.
+    destruct (Z.rem x y <? 0) eqn:E1, (y <? 0) eqn:E2; simpl; symmetry.
+    + apply Z.div_unique with (r := Z.rem x y); lia.
+    + apply Z.div_unique with (r := Z.rem x y + y); lia.
+    + apply Z.div_unique with (r := Z.rem x y + y); lia.
+    + apply Z.div_unique with (r := Z.rem x y); lia.
+Qed.
 Theorem floor_divide_correct sb x y : 0 < snd sb -> in_int sb x -> in_int sb y -> div_dom sb x y ->
   lowered_floor_divide sb x y = jax_floor_divide sb x y.
 Proof.
-  intros Hb Hx Hy Hd. pose proof Hd as [Hy0 Hov]. unfold lowered_floor_divide, jax_floor_divide.
+  intros Hb Hx Hy Hd. pose proof Hd as [Hy0 Hov]. unfold lowered_floor_divide, jax_floor_divide. cbv zeta.
   pose proof (quot_in_range sb x y Hb Hx Hy Hd) as Hq.
-  destruct (is_signed sb) eqn:Hs.
-  - change (o_sub sb x (o_mul sb (o_div sb x y) y)) with (lowered_rem sb x y).
-    rewrite lowered_rem_eq by auto.
-    pose proof (sign_correct sb x Hb Hx) as Sx. pose proof (sign_correct sb y Hb Hy) as Sy.
-    unfold lowered_sign, jax_sign in Sx, Sy.
-    assert (Ex : o_sign sb x = Z.sgn x) by (rewrite Sx; destruct (x <? 0) eqn:?, (x =? 0) eqn:?; lia).
-    assert (Ey : o_sign sb y = Z.sgn y) by (rewrite Sy; destruct (y <? 0) eqn:?, (y =? 0) eqn:?; lia).
-    rewrite Ex, Ey. unfold o_div. rewrite (wrap_id sb (Z.quot x y)) by auto.
-    rewrite (div_from_quot x y Hy0). unfold o_where, o_and, o_not, o_equal.
-    destruct (negb (Z.sgn x =? Z.sgn y) && negb (Z.rem x y =? 0)) eqn:E; [|reflexivity].
-    unfold o_sub. apply wrap_id; auto.
-    (* q - 1 is in range: here x / y = q - 1 and the floor quotient of in-range operands is in range *)
-    apply andb_prop in E as [E1 E2]. apply negb_true_iff in E1, E2. apply Z.eqb_neq in E1, E2.
-    range_tac sb Hb. subst sg. clear Sx Sy Ex Ey.
-    pose proof (Z.quot_rem' x y). pose proof (Z.rem_bound_abs x y Hy0).
-    assert (Z.quot x y <= 0) by nia.
+  change (o_sub sb x (o_mul sb (o_div sb x y) y)) with (lowered_rem sb x y).
+  rewrite lowered_rem_eq by auto.
+  unfold o_div. rewrite (wrap_id sb (Z.quot x y)) by auto.
+  rewrite (div_from_quot_rem x y Hy0). unfold o_where, o_and, o_not, o_xor, o_equal, o_less.
+  destruct (negb (Z.rem x y =? 0) && xorb (Z.rem x y <? 0) (y <? 0)) eqn:E; [|reflexivity].
+  unfold o_sub. apply wrap_id; auto.
+  (* q - 1 is in range: the remainder is non-zero and its sign differs from the divisor's, so q <= 0 and q > INT_MIN *)
+  apply andb_prop in E as [E1 E2]. apply negb_true_iff, Z.eqb_neq in E1.
+  pose proof (Z.quot_rem' x y). pose proof (Z.rem_bound_abs x y Hy0).
+  assert (Hsx : Z.sgn (Z.rem x y) = Z.sgn x) by (apply Z.rem_sign_nz; auto).
+  range_tac sb Hb. destruct sg.
+  - assert (Hq0 : Z.quot x y <= 0).
+    { destruct (Z.rem x y <? 0) eqn:L1, (y <? 0) eqn:L2; simpl in E2; try discriminate; nia. }
     assert (- 2 ^ (b - 1) < Z.quot x y \/ Z.quot x y = - 2 ^ (b - 1)) as [|Heq] by lia; [lia|].
     exfalso. nia.
-  - unfold o_div. rewrite wrap_id by auto.
-    range_tac sb Hb. subst sg. rewrite Z.quot_div_nonneg by lia. reflexivity.
+  - destruct (Z.rem x y <? 0) eqn:L1, (y <? 0) eqn:L2; simpl in E2; try discriminate; lia.
 Qed.
 
 (* jnp.mod / jnp.remainder: sign of the divisor; x mod 0 = 0.  The jaxpr (and so the graph) guards the divisor,
@@ -230,10 +247,15 @@ Definition lowered_clip (x lo hi : Z) := o_min (o_max x lo) hi.
 Theorem clip_correct x lo hi : lowered_clip x lo hi = jax_clip x lo hi.
 Proof. exact (clamp_correct x lo hi). Qed.
 
+(* jnp.clip with scalar bounds: the Clip operator *)
+Definition lowered_clip_op (x lo hi : Z) := o_clip x lo hi.
+Theorem clip_op_correct x lo hi : lowered_clip_op x lo hi = jax_clip x lo hi.
+Proof. exact (clamp_correct x lo hi). Qed.
+
 Definition jax_relu (x : Z) := if x <? 0 then 0 else x.
-Definition lowered_relu (x : Z) := o_max x 0.
+Definition lowered_relu (x : Z) := o_relu x.      (* jax.nn.relu's plugin emits the Relu operator *)
 Theorem relu_correct x : lowered_relu x = jax_relu x.
-Proof. unfold lowered_relu, o_max, jax_relu. destruct (x <? 0) eqn:E; lia. Qed.
+Proof. unfold lowered_relu, o_relu, jax_relu. destruct (x <? 0) eqn:E; lia. Qed.
 (* jax.nn.relu6 of an integer is a float: minimum(maximum(x, 0), 6.); exact on integers *)
 Definition jax_relu6 (x : Z) := if x <? 0 then 0 else if 6 <? x then 6 else x.
 Definition lowered_relu6 (x : Z) := o_min (o_cast_float (o_max x 0)) 6.
